@@ -533,3 +533,57 @@ Proof.
     + split; [lia|]. split; [exact HP'|]. apply (mmnorm_cb_last lo hi xs wd Hwd (mp_eff mp w 0) k v s s' o Hv HL Hcb).
     + rewrite <- Hcb. symmetry. apply mmnorm_cb_nd_eq. apply research_nd_agrees; try assumption; lia.
 Qed.
+
+(* ================================================================================================= *)
+(* Part 3 — ts_vzscore on EVERY carrier (binary64 included): where the output is the carrier's NaN      *)
+(* ================================================================================================= *)
+From Tevec Require Import Proofs.Sliding Proofs.Audit01.
+Section ZscoreAnyCarrier.
+  Context {A : Type} {NA : Num A} {T : Type} {DT : IsNone T A}.
+
+  (* count of the valid elements of the window, and the current (= last) element as the closure saw it *)
+  Definition zs_abs_any (s : @zs A) (l : list T) : Prop :=
+    z_n s = cnt_valid l /\
+    forall l0 v, l = l0 ++ [v] -> z_cur s = (if not_none v then Some (unwrap v) else None).
+
+  Lemma zs_abs_any_pre s l v : zs_abs_any s l -> zs_abs_any (zs_pre s v) (l ++ [v]).
+  Proof.
+    intros (Hn & _). unfold zs_pre. split.
+    - rewrite cnt_valid_snoc. destruct (not_none v); cbn [z_n]; lia.
+    - intros l0 v0 E. apply app_inj_tail in E. destruct E as [_ <-]. destruct (not_none v); reflexivity.
+  Qed.
+  Lemma zs_abs_any_post s x l : zs_abs_any s (x :: l) -> zs_abs_any (zs_post s (Some x)) l.
+  Proof.
+    intros (Hn & Hc). rewrite cnt_valid_cons in Hn. split.
+    - cbn [zs_post]. destruct (not_none x); cbn [z_n]; lia.
+    - intros l0 v E. subst l. specialize (Hc (x :: l0) v eq_refl).
+      cbn [zs_post]. destruct (not_none x); cbn [z_cur]; exact Hc.
+  Qed.
+
+  (* every carrier, both bodies: a null current element or fewer than min(min_periods or w/2, w) valid elements in the
+     window give the carrier's NaN *)
+  Theorem zscore_nan_every_carrier body (w : nat) (mp : option nat) (xs : list T) :
+    1 <= w ->
+    exists out, ts_vzscore body w mp xs = Done out /\ length out = length xs /\
+      forall i v, nth_error xs i = Some v ->
+        (not_none v = false \/ cnt_valid (win w i xs) < mp_eff mp w 0) -> nth_error out i = Some nnan.
+  Proof.
+    intros Hw. unfold ts_vzscore.
+    destruct (sliding_ts_run (ts_vzscore_f w mp) zs_abs_any) with (w := w) (xs := xs) (body := body)
+      as (out & H1 & H2 & H3); try exact Hw.
+    - split; [reflexivity|]. intros l0 v E. destruct l0; discriminate.
+    - exact zs_abs_any_pre.
+    - exact zs_abs_any_post.
+    - reflexivity.
+    - exists out. split; [exact H1|]. split; [exact H2|]. intros i v Hv Hc.
+      destruct (H3 i v Hv) as (s & (Hn & Hcur) & Ho). rewrite Ho. f_equal.
+      assert (Hi : i < length xs) by (apply nth_error_Some; congruence).
+      assert (Hwin : win w i xs = seg (wstart w i) i xs ++ [v]).
+      { rewrite win_seg. apply seg_snoc; [unfold wstart; lia|exact Hv]. }
+      specialize (Hcur _ _ Hwin). cbn [f_emit ts_vzscore_f]. unfold zs_emit. rewrite Hcur.
+      destruct Hc as [Hc|Hc].
+      + rewrite Hc. reflexivity.
+      + destruct (not_none v); [|reflexivity].
+        replace (mp_eff mp w 0 <=? z_n s) with false by (symmetry; apply Nat.leb_gt; lia). reflexivity.
+  Qed.
+End ZscoreAnyCarrier.
